@@ -35,7 +35,7 @@ _LRA_CAP_MS = [12000]
 def invertible(M) -> str:
     k = M.shape[1]
     s = z3.SolverFor("QF_LRA")
-    s.set("timeout", 10000)
+    s.set("timeout", max(10000, _LRA_CAP_MS[0] - 2000))
     c = [z3.Real(f"c{j}") for j in range(k)]
     for cj in c:
         s.add(cj <= 1, cj >= -1)
